@@ -30,7 +30,9 @@ def independentRuns (w : Worker) (h : Heap) (c : Content) (rows : List (Label ×
 theorem C09_parallel_is_independent (assign : List Nat) (n : Nat) (hn : 0 < n) (w : Worker)
     (h : Heap) (cell : Nat) (c : Content) (rows : List (Label × Row)) (hc : h.read cell = .ok c) :
     parScan assign n w h cell rows = independentRuns w h c rows := by
-  unfold parScan parScanWith independentRuns
+  unfold parScan
+  rw [shippedCopyFirst_eq]
+  unfold parScanWith independentRuns
   rw [hc]
   simp only
   rw [schedMap_eq_map assign n hn]
@@ -236,6 +238,44 @@ theorem C09_cache_keyed_by_label_only :
     (parallelise (fun (_ : Nat) => (Except.error (.other "never called") : Except Err Nat)) [(0, 5), (1, 6)]
         (some [(0, 99), (1, 98)]) true { assign := [1, 0], n := 2 }).1.toOption = some [(0, 99), (1, 98)] := by
   constructor <;> decide
+
+
+/-! ### facts regenerated from scan.py / mc.py / parallel.py on every run (`translate/c09.py` → `Generated/C09Facts.lean`) -/
+
+open Mxl.Generated.C09 in
+/-- the row task: the model is copied BEFORE anything is written to it, both kinds of values are written, the worker is
+    called last (the order of the two writes does not matter: a name is a variable or a parameter, never both) -/
+theorem C09_source_row_task :
+    shippedCopyFirst = true ∧ rowSteps.getLast? = some RowStep.call ∧
+    rowSteps.count RowStep.copy = 1 ∧ rowSteps.count RowStep.updVars = 1 ∧ rowSteps.count RowStep.updPars = 1 ∧
+    rowSteps.count RowStep.call = 1 := by decide
+
+open Mxl.Generated.C09 in
+/-- `parallelise`: what `Model/C09Par.lean` models is what the source does — the key check guards the cache,
+    `_load_or_run` loads before it runs, the pool's results are appended in iteration order, a `TimeoutError` skips the
+    row, the sequential branch is `list(map(worker, inputs))` -/
+theorem C09_source_parallelise :
+    cacheChecksKeys = true ∧ loadBeforeRun = true ∧ seqIsMap = true ∧ appendInOrder = true ∧ timeoutSkipsRow = true := by
+  decide
+
+open Mxl.Generated.C09 in
+/-- EVERY scan driver (scan.* ×4, mc.* ×5, the three mc.* MCA wrappers): rows come from `list(<table>.iterrows())` of the
+    driver's own table argument, the worker is handed `y0=None` (custom initial values are written into the model first,
+    so that a row's own initial values win), no driver passes a `timeout` (so no row is ever dropped:
+    `C09_parallelise_timeout_drops_rows`), every driver passes its cache on -/
+theorem C09_source_drivers :
+    drivers.length = 12 ∧
+    (∀ d ∈ drivers, d.passesTimeout = false ∧ d.workerY0None = true ∧ d.y0OnModel = true ∧ d.passesCache = true) ∧
+    (∀ d ∈ drivers, d.module = "scan" → d.table = "to_scan" ∧ d.passesParallel = true ∧ d.passesMaxWorkers = false) ∧
+    (∀ d ∈ drivers, d.module = "mc" → d.table = "mc_to_scan" ∧ d.passesParallel = false ∧ d.passesMaxWorkers = true) := by
+  decide
+
+open Mxl.Generated.C09 in
+/-- which container joins results with the index: the two `steady_state` drivers positionally (an index built from the
+    same table, `C09_aligned_steady_state`), every other driver by row label (`C09_aligned_dict`) -/
+theorem C09_source_containers :
+    (drivers.filter fun d => d.container == Container.positional).map (fun d => (d.module, d.name))
+      = [("scan", "steady_state"), ("mc", "steady_state")] := by decide
 
 /-! ### why the per-row copy is needed (the code before the fix) -/
 
